@@ -595,6 +595,130 @@ def concurrent_layer(prop_id, budget):
     return Layer("real-concurrent", strategy=strat, execute=make_execute_concurrent(prop_id), budget=budget)
 
 
+# ----------------------------------------------------------------------------- C17 over real sockets: 101 Upgrade, then the raw stream
+
+UPGRADE_KINDS = ["direct-h1", "direct-tls-h1", "tunnel-h1", "tunnel-auth-h1", "tunnel-https-proxy-h1", "socks-h1", "socks-tls-h1", "socks-auth-h1", "direct-h2-fallback-h1"]
+
+
+@st.composite
+def upgrade_scenarios(draw):
+    d = draw(st.sampled_from([0, 0, 1, 7, 300, 5000, 70000]))
+    script = []
+    for _ in range(draw(st.integers(0, 4))):
+        if draw(st.booleans()):
+            script.append(["write", draw(st.sampled_from([b"x", b"ping-1", b"y" * 100, b"z" * 20000]))])
+        else:
+            script.append(["read", draw(st.sampled_from([1, 2, 10, 100, 4096, 65536]))])
+    return {"kind": draw(st.sampled_from(UPGRADE_KINDS)), "variant": draw(st.sampled_from(VARIANTS)), "d": d, "script": script,
+            "ragged_close": draw(st.booleans())}
+
+
+def execute_upgrade(sc) -> Outcome:
+    from ..peers.h1 import body_bytes
+
+    lead = body_bytes("LEAD", sc["d"])
+    plan = {"status": 101, "reason": "Switching Protocols", "headers": [["Connection", "upgrade"], ["Upgrade", "sim-proto"]], "leading": lead, "echo": "swapcase"}
+    pool_cfg, cfg, scheme = topo(sc["kind"], plans={"u0": plan}, hosts=HOSTS)
+    port = port_for(scheme)
+    url = f"{scheme}://a.test:{port}/t/u0"
+    headers = [(b"Connection", b"upgrade"), (b"Upgrade", b"sim-proto")]
+    ext = {"timeout": {"connect": LONG, "read": LONG, "write": LONG, "pool": LONG}}
+    res = {"reads": [], "exc": None, "status": None, "in_pool_after": None}
+    expected = bytearray(lead)
+    variant = sc["variant"]
+
+    def steps():
+        """generator of ("write", data) / ("read", n); reads only while something is owed, as a real read would block otherwise"""
+        got = [0]
+        for op in sc["script"]:
+            if op[0] == "write":
+                expected.extend(bytes(op[1]).swapcase())
+                yield ("write", bytes(op[1]), got)
+            elif got[0] < len(expected):
+                yield ("read", op[1], got)
+        while got[0] < len(expected):
+            before = got[0]
+            yield ("read", 65536, got)
+            if got[0] == before:
+                break
+
+    with warnings.catch_warnings(record=True):
+        warnings.simplefilter("ignore")
+        with RealNet(cfg) as net:
+            net.ragged_close = bool(sc.get("ragged_close"))
+            try:
+                if variant == "sync":
+                    pool = build_real_pool(pool_cfg, True, "none")
+                    with pool.stream("GET", url, headers=headers, extensions=dict(ext)) as resp:
+                        res["status"] = resp.status
+                        ns = resp.extensions["network_stream"]
+                        for kind_, arg, got in steps():
+                            if kind_ == "write":
+                                ns.write(arg, timeout=LONG)
+                            else:
+                                data = ns.read(arg, timeout=LONG)
+                                res["reads"].append(data)
+                                got[0] += len(data)
+                    res["in_pool_after"] = [repr(c) for c in pool.connections]
+                    pool.close()
+                else:
+                    async def go():
+                        pool = build_real_pool(pool_cfg, False, "none", backend=httpcore.AnyIOBackend() if variant == "anyio-trio" else None)
+                        async with pool.stream("GET", url, headers=headers, extensions=dict(ext)) as resp:
+                            res["status"] = resp.status
+                            ns = resp.extensions["network_stream"]
+                            for kind_, arg, got in steps():
+                                if kind_ == "write":
+                                    await ns.write(arg, timeout=LONG)
+                                else:
+                                    data = await ns.read(arg, timeout=LONG)
+                                    res["reads"].append(data)
+                                    got[0] += len(data)
+                        res["in_pool_after"] = [repr(c) for c in pool.connections]
+                        await pool.aclose()
+
+                    if variant == "asyncio":
+                        loop = asyncio.new_event_loop()
+                        try:
+                            loop.run_until_complete(go())
+                            loop.run_until_complete(loop.shutdown_default_executor())
+                        finally:
+                            loop.close()
+                    else:
+                        import trio
+
+                        trio.run(go)
+            except Exception as exc:
+                from ..drivers import exc_info
+
+                res["exc"] = exc_info(exc)
+            not_closed = net.wait_client_closed(3.0)
+            errors = list(net.errors)
+    if errors:
+        from ..common import HarnessError
+
+        raise HarnessError("real-network peer thread failed: " + errors[0])
+    vio = []
+    base = dict(conn=sc["kind"], variant=variant, mode="real")
+    what = f"[real {variant}] {sc['kind']} 101 Upgrade followed by {sc['d']} bytes, script {[(o[0], len(o[1]) if o[0] == 'write' else o[1]) for o in sc['script']]}"
+    got = b"".join(res["reads"])
+    if res["exc"] is not None:
+        vio.append(V("C17", "exception", f"{what}: {res['exc']['type']}: {res['exc']['msg']} (in {res['exc'].get('inner')})", **base))
+    elif res["status"] != 101:
+        vio.append(V("C17", "status", f"{what}: status {res['status']}", **base))
+    elif got != bytes(expected):
+        n = min(len(got), len(expected))
+        diff = next((i for i in range(n) if got[i] != expected[i]), n)
+        vio.append(V("C17", "bytes-lost" if len(got) < len(expected) else "bytes-wrong", f"{what}: the handed-over stream yielded {len(got)} bytes, the server sent "
+                     f"{len(expected)} after the head (first difference at offset {diff}: got {got[diff:diff + 12]!r}, sent {bytes(expected[diff:diff + 12])!r})", **base))
+    if res["in_pool_after"]:
+        vio.append(V("C17", "returned-to-pool", f"{what}: after the upgraded response was closed the pool still lists {res['in_pool_after']}", **base))
+    if not_closed:
+        vio.append(V("C17", "socket-not-closed", f"{what}: connection(s) {not_closed} still open after the pool was closed", **base))
+    tags = [sc["kind"], "variant-" + variant, f"leading={'0' if not sc['d'] else ('small' if sc['d'] < 1000 else 'big')}"]
+    return Outcome(vio[:4], tags, sc["d"] > 0 or any(o[0] == "write" for o in sc["script"]), info={"reads": len(res["reads"]), "bytes": len(got)})
+
+
 def stall_matrix(tier):
     """C16, enumerated: every connection kind x variant x a silent peer at every stage (TCP connect, each TLS handshake, SOCKS / CONNECT reply,
     response head, response body, upload)."""
